@@ -1160,8 +1160,8 @@ m("C11", "split-parts-shrinks-before-split", TL,
     parts = arg.split(';')
     parts = [p.replace("\\0", ";") for p in parts]''')
 m("C11", "syntaxerror-plain-token", TA,
-  '''            raise ExpressionError(exc.msg, string)''',
-  '''            raise ExpressionError(exc.msg, str(string))''')
+  '''            raise ExpressionError(exc.msg, stripped)''',
+  '''            raise ExpressionError(exc.msg, str(stripped))''')
 m("C11", "refactor-split-find", T,
   '''            if sep is None:
                 # skip the whitespace run in front of this part
@@ -2245,3 +2245,7 @@ m("C03", "unquoted-value-stops-at-quote", "parser.py",
 m("C11", "valueless-attribute-plain-value", "parser.py",
   "            attr['value'] = simple_value\n",
   "            attr['value'] = ''\n")
+
+m("C11", "syntax-error-reported-with-working-copy", "tales.py",
+  "            raise ExpressionError(exc.msg, stripped)",
+  "            raise ExpressionError(exc.msg, string)")
